@@ -49,7 +49,9 @@ void vf_sample(const char* fmt, ...) __attribute__((format(printf, 1, 2)));
 void vf_extra(const char* key, const char* fmt, ...) __attribute__((format(printf, 2, 3))); /* extra coverage key (string), parent or init only */
 void vf_not_exhaustive(const char* why); /* a cap was hit */
 double vf_now(void);
-double vf_deadline_left(void); /* seconds until the global deadline of this run */
+double vf_deadline_left(void);
+int vf_peer_crashed(void);      /* a sibling worker died: cooperative phases (barriers) must give up */
+extern int vf_nworkers_hint;    /* number of worker processes the runner will start */ /* seconds until the global deadline of this run */
 
 static inline uint64_t vf_mix(uint64_t h, uint64_t v) {
   h ^= v + 0x9E3779B97F4A7C15ull + (h << 6) + (h >> 2);
